@@ -130,6 +130,7 @@ func (e *endpointClient) provide() (string, io.ReadWriteCloser, error) {
 	if !e.first {
 		e.first = true
 	} else {
+		verifPoint("cli.backoff", nil)
 		select {
 		case <-time.After(reconnectPeriod):
 		case <-e.ctx.Done():
@@ -138,6 +139,7 @@ func (e *endpointClient) provide() (string, io.ReadWriteCloser, error) {
 	}
 
 	for {
+		verifPoint("cli.connect", nil)
 		conn, err := e.connect()
 		if err != nil {
 			select {
